@@ -116,5 +116,43 @@ Theorem C16_stable :
     next lower (d1 ++ d2) s = next lower d1 s.
 Proof. exact next_stable. Qed.
 
+(* T2: totality.  The only hypothesis on the lowercase oracle (the model's stand-in for String::to_lowercase) is
+   that on the ten raw-text element names it is ASCII lowercasing (true of to_lowercase: those strings are ASCII).
+   With fuel length b + 1 for the driver loop (the model's internal loops take their fuel from the input length:
+   length b + 2 per loop, 3 * length b + 10 for the script-data state machine) the run is never Panic (none of
+   the 56 checked sites fails) and never OutOfFuel. *)
+Definition lower_is_ascii_on_raw_names (lower : str -> str) : Prop :=
+  forall t, In (map ascii_lower t) raw_text_elements -> lower t = map ascii_lower t.
+
+Theorem C16_total :
+  forall (lower : str -> str) (ctx : str) (fuel : nat) (b : str),
+    lower_is_ascii_on_raw_names lower -> length b + 1 <= fuel ->
+    exists r, tokenize_all lower ctx fuel b = Ok r.
+Proof. exact total. Qed.
+
+(* per call of next, for every state satisfying the invariant wf0 (raw_end inside the input, no panic / fuel flag,
+   attribute spans inside the input, raw_tag empty or one of the ten names): the invariant wf is re-established,
+   the token starts where the previous one ended, the data span is inside the input, the token field is the
+   returned token, and every token other than the ErrorToken is non-empty *)
+Theorem C16_next_total :
+  forall (lower : str -> str) (inp : list N) (s : st) (r : result token_type) (s' : st),
+    lower_is_ascii_on_raw_names lower -> wf0 inp s -> next lower inp s = (r, s') ->
+    wf inp s' /\ raw_start s' = raw_end s
+    /\ data_start s' <= data_end s' /\ data_end s' <= length inp
+    /\ (forall tk, r = ROk tk -> token s' = tk)
+    /\ (forall tk, r = ROk tk -> tk <> ErrorToken -> raw_end s < raw_end s').
+Proof. exact next_spec. Qed.
+
+(* T3: at most one token per input byte (the final ErrorToken is not in the list: at most length b + 1 calls of next
+   return a token) *)
+Theorem C16_count :
+  forall (lower : str -> str) (ctx : str) (fuel : nat) (b : str) (toks : list tok_obs) (fin : final_obs),
+    lower_is_ascii_on_raw_names lower ->
+    tokenize_all lower ctx fuel b = Ok (toks, fin) -> length toks <= length b.
+Proof. exact count. Qed.
+
 Print Assumptions C16_lossless.
 Print Assumptions C16_stable.
+Print Assumptions C16_total.
+Print Assumptions C16_next_total.
+Print Assumptions C16_count.
